@@ -88,12 +88,72 @@ def build_module(leaves):
   return root
 
 
+def _nested(leaves):
+  out = {}
+  for l in leaves:
+    node = out
+    for k in l['path'][:-1]:
+      node = node.setdefault(k, {})
+    node[l['path'][-1]] = mk_leaf(l)
+  return out
+
+
+ENTRY_FILTERS = {
+    '...': lambda: ..., 'True': lambda: True, "'params'": lambda: 'params', "('params', 'dropout')": lambda: ('params', 'dropout'), "Not('params')": lambda: nnx.Not('params'),
+    'RngState': lambda: nnx.RngState, 'Param': lambda: nnx.Param, 'False': lambda: False, 'None': lambda: None, '()': lambda: (), 'Nothing()': lambda: nnx.Nothing(),
+    'Any()': lambda: nnx.Any(), 'All()': lambda: nnx.All(), 'Not(None)': lambda: nnx.Not(None), 'Not(...)': lambda: nnx.Not(...), "[None, 'dropout']": lambda: [None, 'dropout'],
+    "All('params', None)": lambda: nnx.All('params', None), 'Any(None, False)': lambda: nnx.Any(None, False), "PathContains('dropout')": lambda: nnx.PathContains('dropout'),
+}
+
+
+def entry_points():
+  """public entry points that take a filter: nnx.split_rngs(only=F), function and decorator form, on Rngs(params, dropout)"""
+  out = {}
+  for name, mk in ENTRY_FILTERS.items():
+    res = {}
+    for form in ('function', 'decorator'):
+      def go(form=form):
+        rngs = nnx.Rngs(params=0, dropout=1)
+        if form == 'decorator':
+          seen = {}
+
+          @nnx.split_rngs(splits=3, only=mk())
+          def f(r):
+            for n in ('params', 'dropout'):
+              seen[n] = r[n].key.value.shape
+            return 0
+          f(rngs)
+          shapes = seen
+        else:
+          nnx.split_rngs(rngs, splits=3, only=mk())
+          shapes = {n: rngs[n].key.value.shape for n in ('params', 'dropout')}
+        return sorted(n for n, s_ in shapes.items() if s_ == (3,))
+      res[form] = safe(go)
+    out[name] = res
+  return out
+
+
 def run(payload):
   out = []
   for c in payload['cases']:
     leaves = c['leaves']
     state = nnx.State.from_flat_path({tuple(l['path']): mk_leaf(l) for l in leaves})
+    kind = c.get('container', 'dict')
+    if kind != 'dict':
+      # the same leaves, the nested levels held in another Mapping type (State copies only its top level)
+      import collections, types
+      from flax.core import FrozenDict
+      conv = {'ordered': collections.OrderedDict, 'frozen': FrozenDict, 'proxy': lambda d: types.MappingProxyType(dict(d))}[kind]
+      def rebuild(d, top):
+        d2 = {k: (rebuild(v, False) if isinstance(v, dict) else v) for k, v in d.items()}
+        return d2 if top else conv(d2)
+      state = nnx.State(rebuild(nnx.to_pure_dict(state, extract_fn=lambda x: x) if False else _nested(leaves), True))
     flat = nnx.to_flat_state(state)
+    if not all(isinstance(v, variablelib.VariableState) for _, v in flat):
+      # a nested level was not descended into: a whole sub-mapping is handed to the filters as one pseudo-leaf
+      out.append({'flat_err': 'to_flat_state yields %d entries for %d leaves; non-leaf entries: %s' % (
+          len(flat), len(leaves), [list(map(str, p)) for p, v in flat if not isinstance(v, variablelib.VariableState)][:3])})
+      continue
     o = {'order': [int(v.value) for _, v in flat]}
     # single-predicate evaluation on every leaf
     def preds():
@@ -117,4 +177,6 @@ def run(payload):
         o['nnx.split'] = safe(gsplit)
         o['nnx.state'] = safe(lambda: [ids_of_state(s) for s in as_tuple(nnx.state(m, *fs))])
     out.append(o)
+  if payload.get('entry_points'):
+    out.append({'entry_points': entry_points()})
   return out
